@@ -48,7 +48,14 @@ def known_pm_whitespace_family(prefix, unit):
     return any(m.end() == len(p) for m in twprge_regex.finditer(p))
 
 
+def known_aliquot_whitespace_family(prefix, unit):
+    """known finding C16-aliquot-whitespace: white space pumped right after an aliquot (aliquot_intervener_remover_regex)"""
+    return bool(unit) and unit.strip() == '' and bool(re.search(r'(½|¼|/4|/2|N2|S2|E2|W2)\s*$', prefix))
+
+
 def known_family(prefix, unit):
+    if known_aliquot_whitespace_family(prefix, unit):
+        return 'C16-aliquot-whitespace'
     if known_intervener_family(prefix, unit):
         return 'C16-intervener-backtracking'
     if known_pm_whitespace_family(prefix, unit):
@@ -107,9 +114,12 @@ def case_times(case):
 
 
 def superlinear(times):
-    """some size is slow and more than 3x slower than half that size (or even the smallest size tried is slow)"""
+    """the full size is slow, and somewhere along the halvings the time more than triples when the size doubles
+    (measured where it is above the noise; sizes that hit the hard time-out only give a lower bound)"""
+    if times[0] <= SLOW:
+        return False
     for a, b in zip(times, times[1:]):
-        if a > SLOW and a > 3 * max(b, 1e-3):
+        if a >= 0.3 and a > 3 * max(b, 0.01):
             return True
     return times[-1] > SLOW and len(times) == len(FRACTIONS)
 
@@ -158,20 +168,37 @@ def units_from_patterns(rng):
     return sorted(out)
 
 
+PAIR_TOKENS = ['of', 'NE', 'SW', 'N½', 'NE¼', 'N', ' ', '\n', '\t', ',', '.', ';', ':', '-', '&', 'and', 'thru', 'to', 'the', 't', 'o',
+               'f', '1', '2', 'Lot', 'Sec', 'L', 'T', 'R', 'W', 'P', 'M', '(', ')', '/', '4', 'e', 's', 'h', 'i', 'a', 'r']
+
+
+KNOWN_EXEMPLARS = [('T154N-R97W Sec 14: NE/4', ' \n', 'x'), ('T154N-R97W Sec 14', ' -', ''), ('T154N-R97W', ' ', ' P.M.')]
+
+
 def run(ctx):
     rep = ctx.rep
     rng = Rng(ctx.seed, 16)
     atoms = units_from_patterns(rng)
-    units = list(dict.fromkeys(WORDS + atoms))
+    units = list(dict.fromkeys(WORDS + atoms + [a + b for a in PAIR_TOKENS for b in PAIR_TOKENS if a != b]))
     cases = []
+    known_cases = {}
     for p in PREFIXES:
         for u in units:
-            sfx = SUFFIXES if ctx.thorough else [SUFFIXES[0], rng.choice(SUFFIXES[1:])]
+            # a suffix that is not white space / punctuation makes failing look-aheads backtrack
+            sfx = SUFFIXES + ['x'] if ctx.thorough else ['', 'x'] if len(u) > 1 else [SUFFIXES[0], rng.choice(SUFFIXES[1:] + ['x'])]
+            fam = known_family(p, u)
             for s in sfx:
-                cases.append((p, u, s))
-    if not ctx.thorough:
-        # every (prefix, unit) pair is kept; suffixes are sampled
-        pass
+                if fam:
+                    known_cases.setdefault(fam, []).append((p, u, s))
+                else:
+                    cases.append((p, u, s))
+    # listed findings: exhibit each by its recorded exemplar and a few random members per run; the whole family is
+    # not re-measured every time (each member costs the hard time-out)
+    for fam, lst in sorted(known_cases.items()):
+        ex = [c for c in KNOWN_EXEMPLARS if known_family(c[0], c[1]) == fam]
+        k = len(lst) if ctx.thorough and len(lst) <= 400 else 6
+        pick = lst if k >= len(lst) else [lst[rng.below(len(lst))] for _ in range(k)]
+        cases.extend(dict.fromkeys(ex + pick))
     rep.extra['pumping_families'] = len(cases)
     rep.extra['units'] = len(units)
     with mp.Pool(14) as pool:
